@@ -31,15 +31,24 @@ def _binds(st):
 
 
 def _alts(stmts):
-    res = [[]]
+    """[(choices, terminated)]: ``terminated`` when the path has run into a
+    return / raise / continue / break, so later statements do not count."""
+    res = [([], False)]
     for st in stmts:
         if isinstance(st, ast.If) and _binds(st):
-            a = [[(st, True)] + c for c in _alts(st.body)] + \
-                [[(st, False)] + c for c in _alts(st.orelse)]
-            res = [r + x for r in res for x in a]
+            a = [([(st, True)] + c, t) for c, t in _alts(st.body)] + \
+                [([(st, False)] + c, t) for c, t in _alts(st.orelse)]
+            new = []
+            for r, done in res:
+                if done:
+                    new.append((r, True))
+                else:
+                    new.extend((r + x, t) for x, t in a)
+            res = new
             if len(res) > 256:
                 raise OverflowError("too many path variants")
-        if isinstance(st, (ast.Return, ast.Raise)):
+        if isinstance(st, (ast.Return, ast.Raise, ast.Continue, ast.Break)):
+            res = [(r, True) for r, _d in res]
             break
     return res
 
@@ -93,7 +102,8 @@ def path_variants(fnode, within=None):
     fnode._pv_root = True
     try:
         out = []
-        for choice in _alts(fnode.body if within is None else within.body):
+        for choice, _done in _alts(fnode.body if within is None
+                                   else within.body):
             ch = {st._pv_tag: o for st, o in choice}
             cp = copy.deepcopy(fnode)
             p = _Pick(ch)
